@@ -1,3 +1,4 @@
+import PynModel.Kernels.Process
 import PynModel.Process.Spectrum
 import PynProofs.Parseval
 /-!
@@ -11,8 +12,11 @@ Proved:
   of bin `k` holding FFT output `k mod n`, even and odd `n` (`sortedBins_spec`), the one-sided output
   keeps bins `0 … (n-1)/2` (`onesided_kept`) and doubles exactly the strictly positive ones; the Nyquist
   bin is never among them (`onesided_doubling`); cropping / zero-padding (`nPoint_get`).
+* the segments of the mean PSD: `_overlap_split` returns exactly the windows `[start_k + j·step, … + L]` that end
+  strictly before the end of their epoch (`overlapSplit_mem`, `ovInner_mem`): equal length, equal spacing from the
+  epoch start, none across an epoch boundary, none missing.
 Which samples enter (restrict: C03), the float FFT itself (NumPy, compared with the O(n²) definition
-within tolerance) and the Hamming-windowed segment average are decided by the oracle run.
+within tolerance) and the Hamming-windowed average over those segments are decided by the oracle run.
 -/
 namespace Pyn.C19
 open Pyn
@@ -142,5 +146,83 @@ example : fftfreqIdx 6 = [0, 1, 2, -3, -2, -1] ∧ fftfreqIdx 5 = [0, 1, 2, -2, 
 example : sortedBins 6 = [(-3, 3), (-2, 4), (-1, 5), (0, 0), (1, 1), (2, 2)] := by decide
 example : (sortedBins 6).map (fun p => doubledBin 6 p.1) = [true, true, true, false, true, true] := by decide  -- (only evaluated on kept rows by the code)
 example : nPoint [1, 2, 3] 5 = [1, 2, 3, 0, 0] ∧ nPoint [1, 2, 3] 2 = [1, 2] := by decide
+
+
+/-! ## the segments of the mean PSD -/
+
+/-- the windows emitted for one epoch: exactly `(t + j·step, t + j·step + L)` for the `j` with `t + j·step + L < e` -/
+theorem ovInner_mem (e L step : Int) (hs : 0 < step) (t : Int) (out : Array (Int × Int)) (p : Int × Int) :
+    p ∈ ovInner e L step hs t out ↔
+      p ∈ out ∨ ∃ j : Nat, p = (t + j * step, t + j * step + L) ∧ t + j * step + L < e := by
+  induction hn : (e - L - t).toNat using Nat.strongRecOn generalizing t out with
+  | _ n ih =>
+    unfold ovInner
+    split
+    · rename_i hlt
+      have hdec : (e - L - (t + step)).toNat < n := by omega
+      rw [ih _ hdec (t + step) (out.push (t, t + L)) rfl]
+      simp only [Array.mem_push]
+      constructor
+      · rintro ((h | h) | ⟨j, h1, h2⟩)
+        · exact Or.inl h
+        · exact Or.inr ⟨0, by simpa using h, by simpa using hlt⟩
+        · refine Or.inr ⟨j + 1, ?_, ?_⟩
+          · rw [h1]; push_cast; congr 1 <;> rw [Int.add_mul] <;> omega
+          · push_cast; rw [Int.add_mul]; omega
+      · rintro (h | ⟨j, h1, h2⟩)
+        · exact Or.inl (Or.inl h)
+        · cases j with
+          | zero => left; right; simpa using h1
+          | succ j =>
+            right
+            refine ⟨j, ?_, ?_⟩
+            · rw [h1]; push_cast; congr 1 <;> rw [Int.add_mul] <;> omega
+            · push_cast at h2; rw [Int.add_mul] at h2; omega
+    · rename_i hge
+      constructor
+      · exact Or.inl
+      · rintro (h | ⟨j, h1, h2⟩)
+        · exact h
+        · exfalso
+          have : (0 : Int) ≤ (j : Int) * step := Int.mul_nonneg (Int.natCast_nonneg _) (Int.le_of_lt hs)
+          omega
+
+/-- **the segments of `compute_mean_power_spectral_density`**: `_overlap_split` returns exactly the windows
+`[start_k + j·step, start_k + j·step + L]` (`step = (1 − overlap)·L`, `j = 0, 1, …`) that end strictly before the end of
+their epoch — equal length, equal spacing from the epoch start, none across an epoch boundary, none missing -/
+theorem overlapSplit_mem (st en : Array Int) (hm : st.size = en.size) (L step : Int) (hs : 0 < step) (k : Nat)
+    (out : Array (Int × Int)) (p : Int × Int) :
+    p ∈ overlapSplit st en hm L step hs k out ↔
+      p ∈ out ∨ ∃ k', k ≤ k' ∧ ∃ hk : k' < st.size, ∃ j : Nat,
+        p = (st[k'] + j * step, st[k'] + j * step + L) ∧ st[k'] + j * step + L < en[k']'(hm ▸ hk) := by
+  induction hn : st.size - k generalizing k out with
+  | zero =>
+    unfold overlapSplit
+    have : ¬ k < st.size := by omega
+    simp only [dif_neg this]
+    constructor
+    · exact Or.inl
+    · rintro (h | ⟨k', h1, hk, _⟩)
+      · exact h
+      · omega
+  | succ n ih =>
+    have hk : k < st.size := by omega
+    unfold overlapSplit
+    simp only [dif_pos hk]
+    rw [ih (k+1) _ (by omega), ovInner_mem]
+    constructor
+    · rintro ((h | ⟨j, h1, h2⟩) | ⟨k', h1, hk', j, h2, h3⟩)
+      · exact Or.inl h
+      · exact Or.inr ⟨k, Nat.le_refl _, hk, j, h1, h2⟩
+      · exact Or.inr ⟨k', by omega, hk', j, h2, h3⟩
+    · rintro (h | ⟨k', h1, hk', j, h2, h3⟩)
+      · exact Or.inl (Or.inl h)
+      · rcases Nat.eq_or_lt_of_le h1 with e | e
+        · subst e; exact Or.inl (Or.inr ⟨j, h2, h3⟩)
+        · exact Or.inr ⟨k', by omega, hk', j, h2, h3⟩
+
+
+-- two epochs, 50 % overlap: windows of length 4 every 2, strictly inside
+example : overlapSplit #[0, 20] #[9, 27] rfl 4 2 (by decide) 0 #[] = #[(0, 4), (2, 6), (4, 8), (20, 24), (22, 26)] := by decide +kernel
 
 end Pyn.C19
